@@ -108,6 +108,18 @@ WITNESSES = {
     "after": (dict(clients=[[10]], bg=True), [("run", 1, "c3"), ("peer", 0), ("run", 2, "d5"), ("block", 1)], None),
 }
 
+# the non-blocking way of waiting, `while not res.ready` (AsyncResult.ready -> poll_all(0) -> poll), under unrelated
+# inbound traffic.  ORACLE-ONLY: a caller that polls is outside the model; what is checked on the real code is the
+# statement itself on this path: once the polling thread has dispatched the reply to its request, `ready` gives it
+# control back in that same poll round (it receives no further frame first).
+READY_CASE = dict(clients=[[("ready", None)]], unrelated=3)
+READY_SCRIPTS = [
+    [("run", 1, "c2"), ("peer", 0), ("unrelated",), ("unrelated",), ("unrelated",), ("block", 1)],
+    [("run", 1, "c2"), ("unrelated",), ("peer", 0), ("unrelated",), ("unrelated",), ("block", 1)],
+    [("run", 1, "c2"), ("unrelated",), ("unrelated",), ("peer", 0), ("unrelated",), ("block", 1)],
+]
+READY_RANDOM = dict(clients=[[("ready", 6)], [5]], unrelated=4, bg=True)
+
 NEIGHBOURHOODS = [("1c+bg", dict(clients=[[4]], bg=True), 2), ("2c", dict(clients=[[None], [4]], bg=False), 1),
                   ("1c+poller", dict(clients=[[None]], pollers=[[0]]), 2),
                   ("1c+bg-byref-log", dict(clients=[[4]], bg=True, byref=True, logger=True), 1),
@@ -130,6 +142,12 @@ RANDOM_CONFIGS = {
 
 
 def describe_stall(st):
+    if st.get("signature") == ss.SIG_DRAIN:
+        return "thread %s request %s: %s" % (st.get("tid"), st.get("seq"), st.get("shape"))
+    return _describe_stall(st)
+
+
+def _describe_stall(st):
     if st.get("t_return") is None:
         when = "never returned (still blocked at the horizon / end of the run)"
     else:
@@ -213,6 +231,21 @@ def correspondence(ctx):
                 c.disagreements.append(dict(case=dict(kind="schedule", config="witness:" + name, case=r.case,
                                                       choices=[x for (x, _o, _c) in r.choices]),
                                             impl="oracle: a stall where the model has none: " + describe_stall(sts[0]), model="no stall"))
+        # 1b. the ready/poll_all path under unrelated traffic (oracle-only)
+        rng0 = Rng(ctx.seed).fork("c14-ready")
+        ready_runs = [ss.run_case(dict(READY_CASE), ss.DirectedChooser(sc), env) for sc in READY_SCRIPTS]
+        for k in range(ctx.budget(60, 2000)):
+            rr = rng0.fork("r%d" % k)
+            ready_runs.append(ss.run_case(dict(READY_RANDOM if k % 2 else READY_CASE), ss.RandomChooser(rr, stick=rr.below(5)), env))
+        for r in ready_runs:
+            c.evaluations += 1
+            c.count("oracle-only: ready/poll_all path under unrelated traffic")
+            for (tid, seq, spins, _e) in r.ready_polls:
+                c.count("ready path: reads of `ready` that returned False before it was True: %s" % ("0" if spins == 0 else "1-3" if spins <= 3 else ">3"))
+            for st in ss.ready_drain(r):
+                c.disagreements.append(dict(case=dict(kind="schedule", config="ready-path", case=r.case,
+                                                      choices=[x for (x, _o, _c) in r.choices]),
+                                            impl="oracle: " + st["shape"], model="(outside the model)"))
         # 2. neighbourhoods, exhaustive within a preemption bound
         exhaustive = {}
         plan = NEIGHBOURHOODS if ctx.tier != "thorough" else NEIGHBOURHOODS + [
@@ -299,7 +332,7 @@ def oracle_search(ctx, corr, broken):
     deadline = time.time() + ctx.budget(40, 600)
 
     def unlisted(run):
-        sts = [s for s in ss.stalls_of(run) if s["signature"] not in known]
+        sts = [s for s in ss.stalls_of(run) + ss.ready_drain(run) if s["signature"] not in known]
         return sorted(sts, key=lambda s: s["signature"] != ss.SIG_NESTED)     # the most specific shape first
 
     def package(case, run, park_all):
@@ -311,9 +344,9 @@ def oracle_search(ctx, corr, broken):
                 r2 = run_choices(case, choices[:n], park_all)
             except ss.HarnessError:
                 continue
-            if any(s["signature"] == st["signature"] for s in ss.stalls_of(r2)):
+            if any(s["signature"] == st["signature"] for s in ss.stalls_of(r2) + ss.ready_drain(r2)):
                 choices, run = choices[:n], r2
-                st = [s for s in ss.stalls_of(r2) if s["signature"] == st["signature"]][0]
+                st = [s for s in ss.stalls_of(r2) + ss.ready_drain(r2) if s["signature"] == st["signature"]][0]
                 break
         return (dict(kind="schedule", case=case, choices=choices, park_all=park_all),
                 describe_stall(st) + " | " + (st.get("shape") or "") + " | trace: " + " ".join(run.sched.trace)[:1500], st["signature"])
@@ -331,6 +364,10 @@ def oracle_search(ctx, corr, broken):
         r, _ch, _sig = run_witness(name, env)
         if unlisted(r):
             return package(WITNESSES[name][0], r, False)
+    for sc in READY_SCRIPTS:
+        r = ss.run_case(dict(READY_CASE), ss.DirectedChooser(sc), env)
+        if unlisted(r):
+            return package(dict(READY_CASE), r, False)
     rng = Rng(ctx.seed).fork("c14-search")
     cases = [c for (_n, c, _b) in NEIGHBOURHOODS] + list(RANDOM_CONFIGS.values())
     k = 0
@@ -355,7 +392,7 @@ def replay(case):
     out["outcome"] = r.outcome
     out["implementation"] = "ok " + r.summary()
     out["trace"] = " ".join(r.sched.trace)
-    sts = ss.stalls_of(r)
+    sts = ss.stalls_of(r) + ss.ready_drain(r)
     out["oracle"] = [describe_stall(s) + " [" + s["signature"] + "]" for s in sts] or "holds (no client blocked after its reply was processed)"
     try:
         out["model"] = run_driver(["serve trace " + " ".join(r.sched.trace)], exe="drv_serve")[0]
